@@ -1,7 +1,7 @@
 (* C11 correspondence: observed behaviour of an in-process frps (server/control.go, server/service.go,
    server/proxy/proxy.go; hand-off: pkg/util/vhost/vhost.go, server/group/tcp.go, tcpmux.go) driven by a
    scripted client, against Model/Pool.v. *)
-From FRP Require Export Corr.Common Model.Pool Proofs.PoolProofs gen.GenSendLoop gen.GenAcceptPaths.
+From FRP Require Export Corr.Common Model.Pool gen.GenSendLoop gen.GenAcceptPaths.
 Open Scope Z_scope.
 
 (* A phase: run the listed threads, each for the given number of its own steps (64 = "until it blocks or
